@@ -606,6 +606,14 @@ func (x *Exec) heapArr(st *State, name string, idx, elt Sort) *Term {
 		}
 	}
 	t := x.D.Const(smtName(name+"@"+gen), ArraySort(idx, elt))
+	if gen == "0" {
+		if x.arrBorn == nil {
+			x.arrBorn = map[string]int{}
+		}
+		x.arrBorn[t.S] = 0
+	} else {
+		x.noteBorn(t)
+	}
 	st.heap[name] = t
 	if gen == "0" && x.heap0 != nil {
 		if _, ok := x.heap0[name]; !ok {
@@ -618,6 +626,7 @@ func (x *Exec) heapArr(st *State, name string, idx, elt Sort) *Term {
 func (x *Exec) heapHavoc(st *State, name string) {
 	if t, ok := st.heap[name]; ok {
 		st.heap[name] = x.freshSym("hv."+name, t.Sort)
+		x.noteBorn(st.heap[name])
 		x.havocKeepStack(st, name, t, st.heap[name])
 	}
 }
@@ -646,12 +655,8 @@ func (x *Exec) loadAt(st *State, prefix string, idx *Term, t types.Type) Value {
 	for _, c := range cs {
 		arr := x.heapArr(st, prefix+c.suffix, idx.Sort, c.sort)
 		t := x.heapSelect(st, prefix+c.suffix, arr, idx)
-		if c.sort.K == KInt && (c.suffix == "" || c.suffix == ".base" || c.suffix == ".ref") && strings.HasPrefix(t.S, "(select |") {
-			// a reference read straight from the entry heap (array name@0, no store in between):
-			// memory at entry only refers to memory that exists at entry
-			if end := strings.Index(t.S[9:], "|"); end > 0 && strings.HasSuffix(t.S[9:9+end], "@0") {
-				x.assumeOld(st, t)
-			}
+		if c.sort.K == KInt && (c.suffix == "" || c.suffix == ".base" || c.suffix == ".ref") {
+			x.boundLoadedRef(st, t)
 		}
 		ts = append(ts, t)
 	}
@@ -831,7 +836,11 @@ func (x *Exec) loadElem(st *State, base, idx *Term, t types.Type) Value {
 	var ts []*Term
 	for _, c := range cs {
 		arr := x.heapArr(st, elemPrefix(t)+c.suffix, SInt, ArraySort(SBV64, c.sort))
-		ts = append(ts, Select(Select(arr, base), idx))
+		et := Select(x.heapSelect(st, elemPrefix(t)+c.suffix, arr, base), idx)
+		if c.sort.K == KInt && (c.suffix == "" || c.suffix == ".base" || c.suffix == ".ref") {
+			x.boundLoadedRef(st, et)
+		}
+		ts = append(ts, et)
 	}
 	v, _ := x.unflatten(t, ts)
 	x.assumeTypeInv(st, t, v)
@@ -848,8 +857,8 @@ func (x *Exec) storeElem(st *State, base, idx *Term, t types.Type, v Value) {
 	for i, c := range cs {
 		name := elemPrefix(t) + c.suffix
 		arr := x.heapArr(st, name, SInt, ArraySort(SBV64, c.sort))
-		inner := Select(arr, base)
-		st.heap[name] = x.nameTerm(st, Store(arr, base, Store(inner, idx, ts[i])), "h")
+		inner := x.heapSelect(st, name, arr, base)
+		x.heapStoreFwd(st, name, base, x.nameTerm(st, Store(inner, idx, ts[i]), "el"))
 	}
 }
 
@@ -860,14 +869,14 @@ func (x *Exec) elemArray(st *State, base *Term, t types.Type) *Term {
 		unsupported("elemArray of multi-component type %s", t)
 	}
 	arr := x.heapArr(st, elemPrefix(t)+cs[0].suffix, SInt, ArraySort(SBV64, cs[0].sort))
-	return Select(arr, base)
+	return x.heapSelect(st, elemPrefix(t)+cs[0].suffix, arr, base)
 }
 
 func (x *Exec) setElemArray(st *State, base *Term, t types.Type, a *Term) {
 	cs := x.compsOf(t)
 	name := elemPrefix(t) + cs[0].suffix
-	arr := x.heapArr(st, name, SInt, ArraySort(SBV64, cs[0].sort))
-	st.heap[name] = x.nameTerm(st, Store(arr, base, a), "h")
+	x.heapArr(st, name, SInt, ArraySort(SBV64, cs[0].sort))
+	x.heapStoreFwd(st, name, base, a)
 }
 
 // byteOfArray extracts byte idx (BV64) from a [n]byte bit-vector (byte 0 is the most significant).
@@ -933,6 +942,11 @@ func (x *Exec) seqOf(st *State, s *SliceV) *Term {
 	arr := x.elemArray(st, s.Base, bt)
 	t := x.D.Fun("seqof", SSeq, arr, s.Off, s.Len)
 	x.needSeqAxioms = true
+	// instances of the sequence axioms for this term: its length, and "all empty sequences are equal"
+	st.Assume(Eq(x.seqLen(t), s.Len))
+	e := x.D.Fun("seqempty", SSeq)
+	st.Assume(Eq(x.seqLen(e), BVConstU(0, 64)))
+	st.Assume(Implies(Eq(s.Len, BVConstU(0, 64)), Eq(t, e)))
 	return t
 }
 
